@@ -240,3 +240,60 @@ def run_mem(rep, strict_diff):
                                    certificates_accepted=sum(1 for l in cert if " OK " in l), certificates_failed=len(fail),
                                    too_big=sum(1 for l in cert if " TOOBIG " in l), unsupported=sum(1 for l in cert if " UNSUPPORTED " in l))
     return viol, broken
+
+
+def run_wide(rep, strict_diff):
+    """fourth family: decoration twins of designs with WIDE signals (lib/widegen.py: 64..400 bits, constants composed per
+    64-bit storage word).  Beyond the certificates' state budget: decided by the tie of the Coq model to all real traces
+    and by the differential on the real simulator (sampled stimuli; identical values for the constructed twins, C01's
+    condition after post-processing incl. the plain design as constructed vs the decorated twin after post-processing)."""
+    import widegen
+    work = V.BUILD / "work" / "C11w"
+    work.mkdir(parents=True, exist_ok=True)
+    for f in work.glob("*"):
+        if f.is_file(): f.unlink()
+    harness = V.build_harness("C01_design")
+    driver = V.build_model("C01", name="C01")
+    n = 40 if rep.tier == "quick" else 500
+    pairs, progs = [], []
+    for i in range(n):
+        a, _ = widegen.gen_wide_design(rep.seed * 810001 + i, f"WA{i}")
+        b, ap = G.decorate(a, rep.seed * 79 + i)
+        a = [a[0], f"stimkey wp{i}"] + a[1:]
+        b = [f"design WB{i}", f"stimkey wp{i}"] + [l for l in b[1:] if not l.startswith("stimkey")]
+        pairs.append((f"WA{i}", f"WB{i}", ap)); progs += [a, b]
+    prog = {p[0].split()[1]: p for p in progs}
+    G.write_programs(work / "designs.txt", progs)
+    circ.run_harness(harness, str(work / "designs.txt"), str(work), "pre,def,min", nstim=2, cycles=6)
+    cmds, viol, broken, compared, dh = [], [], [], 0, {}
+    for ia, ib, ap in pairs:
+        tpa = circ.parse_traces(work / f"{ia}.pre.trace")
+        for v in ("pre", "def", "min"):
+            ta, tb = circ.parse_traces(work / f"{ia}.{v}.trace"), circ.parse_traces(work / f"{ib}.{v}.trace")
+            if ("SKIP" in ta) != ("SKIP" in tb):
+                viol.append(dict(kind="only one wide twin could be built / post-processed", variant=v, programA=prog[ia], programB=prog[ib], decorations=ap,
+                                 detail=dict(A=ta.get("SKIP"), B=tb.get("SKIP")))); break
+            if "SKIP" in ta: break
+            for i in (ia, ib): cmds.append(f"tie {work}/{i}.{v}.net {work}/{i}.{v}.trace")
+            found = False
+            for tag, x in ta.items():
+                y = tb.get(tag.replace(f"{ia}.", f"{ib}."))
+                if not y: continue
+                compared += 1
+                d = strict_diff(x, y) if v == "pre" else circ.direct_diff(x, y)
+                if d is None and v != "pre":
+                    x0 = tpa.get(tag.replace(f"{ia}.{v}", f"{ia}.pre"))
+                    d = circ.direct_diff(x0, y) if x0 else None
+                if d:
+                    viol.append(dict(kind="real traces of wide decoration twins differ", variant=v, programA=prog[ia], programB=prog[ib], decorations=ap,
+                                     stimulus=circ.stim_of(x), real_simulator=d)); found = True; break
+            if found: break
+        else:
+            for d in ap: dh[d] = dh.get(d, 0) + 1
+    lines = circ.run_driver(driver, cmds, str(work / "batch")) if driver else []
+    tie_bad = [l for l in lines if l.startswith("TIE") and "MISMATCH" in l]
+    if tie_bad: broken.append(f"{len(tie_bad)} tie mismatches (wide twins), first: {tie_bad[0][:250]}")
+    rep.cov["wide_twins"] = dict(pairs=len(pairs), trace_pairs_compared=compared, traces_validated_against_model=sum(1 for l in lines if l.startswith("TIE") and " ok " in l),
+                                 tie_unsupported=sum(1 for l in lines if l.startswith("TIE") and "UNSUPPORTED" in l), decoration_histogram=dh,
+                                 note="64..400-bit signals; tie + real-simulator differential under sampled stimuli, no certificate")
+    return viol, broken
